@@ -106,8 +106,14 @@ class Executor(ExternMixin, ExprMixin, CallMixin, BuiltinMixin, StmtMixin, Engin
         pspecs.update(case)
         for cn, cs in c.get('closure', {}).items():
             env[cn] = self.fresh_of(case.get(cn, cs), cn)
+        _defaults = dict(zip([a.arg for a in (fn.args.posonlyargs + fn.args.args)][::-1], fn.args.defaults[::-1]))
+        _defaults.update({a.arg: d for a, d in zip(fn.args.kwonlyargs, fn.args.kw_defaults) if d is not None})
         for p in params + [a.arg for a in fn.args.kwonlyargs]:
             if p not in pspecs:
+                if p in _defaults:
+                    # a parameter the contract does not know (added later, with a default): callers under contract do not pass it
+                    env[p] = self.ev(_defaults[p])
+                    continue
                 raise Unsupported(f'{key}: no type for parameter {p}')
             env[p] = self.fresh_of(pspecs[p], p)
         if fn.args.kwarg:
